@@ -57,6 +57,8 @@ def scan_assumptions(text):
     rx = re.compile('|'.join(pats))
     for n, ln in enumerate(lines, 1):
         code = ln.split('//')[0]
+        if 'proved-elsewhere' in ln:
+            continue
         if rx.search(code):
             # describe by the next `fn name` / `struct name` on this or following lines
             ctx = ''
